@@ -16,6 +16,7 @@ DZ = {
     "deep30": [0.1] * 30,  # never deepened
     "d15": [0.15] * 10,
     "d30": [0.3] * 5,
+    "few8": [0.1] * 4 + [0.2] * 4,  # few compartments: deepening for a deep-rooted crop thickens even the top one
 }
 
 CUSTOM3 = {  # three layers, low-Ksat / penetrability-50 middle layer
@@ -109,7 +110,7 @@ WINDOWS = {  # (start offset in days relative to first planting, n seasons, trai
 
 WATER_MENUS = {
     "soil": ["SandyLoam", "Sand", "Clay", "Paddy", "custom3", "ClayLoam"],
-    "dz": ["d12", "nonuni", "deep30"],
+    "dz": ["d12", "nonuni", "deep30", "few8"],
     "iwc": IWC_KINDS,
     "irr": ["none", "smt", "smt100e70", "int3", "sched", "net80", "net50", "const8e70", "const40e40", "smt_cap60"],
     "field": ["none", "bunds200", "bunds50w20", "bunds50w500", "mulch", "srinhb", "cn+20"],
@@ -288,8 +289,9 @@ WATER_BASES = [
     _b(soil="ClayLoam", iwc="Depth", irr="int3", field="mulch", off=True, win="w1", word="normal"),
     _b(soil="Sand", iwc="FC", irr="sched", field="srinhb", word="wet", fallow="mulch"),
     _b(soil="custom3", iwc="SAT", irr="smt100e70", field="bunds50w500", word="mix", gw="1.5", dz="deep30", crop="potato.2"),
-    # bunds in the season only, off-season simulated: the day after harvest is a bund-removal day with water still ponded
-    _b(soil="Clay", iwc="SAT", field="bunds200", fallow="none", off=True, win="w1", word="wet", crop="rice.2", irr="const40e40"),
+    # bunds in the fallow struct only, off-season simulated (otherwise ponding is reset at planting): the planting day is a bund-removal day with water still ponded from the pre-season days
+    # (a run ends at the last harvest even with off_season=True, so post-harvest removal needs a following season: base 3)
+    _b(soil="Clay", iwc="SAT", field="none", fallow="bunds50w20", off=True, win="w1", word="wet", crop="rice.2", irr="const40e40"),
 ]
 
 
